@@ -21,151 +21,6 @@ theorem pinnedOther_iff {s : State} (hb : ∀ r R, s.reps r = some R → r < s.n
   · rintro ⟨r, R, fid, hR, hf, hne⟩
     exact ⟨r, R, hR, by simp [Rep.refs, hf, hne]⟩
 
-/-- a functor that owns nothing: `destroy()` destroys nothing else -/
-theorem destroyRep_noOwn (k r : Nat) (s : State) (R : Rep) (hr : s.reps r = some R)
-    (hf : ∀ f, R.fn = some f → f.owns = none) :
-    destroyRep (k + 1) r s = match R.fn with
-      | none => s.setRep r (some { R with call := false })
-      | some f => dropFn r R f s := by
-  rw [destroyRep_succ]; simp only [hr]
-  cases hfn : R.fn with
-  | none => rfl
-  | some f => simp only [hf f hfn]
-
-theorem slots_dropFn (r : Nat) (R : Rep) (f : Fun) (s : State) : (dropFn r R f s).slots = s.slots := by
-  unfold dropFn; rw [slots_modRep]
-  cases f with
-  | fn fid => rfl
-  | mem fid t => exact slots_trkRemove _ _ _
-  | sref fid v => exact slots_unsetParentIf _ _ _
-  | own fid v t => cases t <;> first | rfl | exact slots_trkRemove _ _ _
-  | nest fid v d => exact slots_unsetParentIf _ _ _
-
-theorem destroyRep_slots_noOwn (k r : Nat) (s : State) (R : Rep) (hr : s.reps r = some R)
-    (hf : ∀ f, R.fn = some f → f.owns = none) : (destroyRep k r s).slots = s.slots := by
-  cases k with
-  | zero => rfl
-  | succ k =>
-    rw [destroyRep_noOwn k r s R hr hf]
-    cases R.fn with
-    | none => rfl
-    | some f => exact slots_dropFn _ _ _ _
-
-/-- what `dropFn r` does to another representation: at most its parent link to `r` is cleared -/
-theorem reps_dropFn_other (r : Nat) (R : Rep) (f : Fun) (s : State) (x : Nat) (hx : x ≠ r) :
-    (dropFn r R f s).reps x = s.reps x ∨
-      (∃ v X, f.ref = some v ∧ repOf s v = some x ∧ s.reps x = some X ∧
-        (dropFn r R f s).reps x = some (clearPar r X)) := by
-  unfold dropFn
-  rw [reps_modRep, if_neg hx]
-  cases f with
-  | fn fid => left; simp [unbindFun, reps_setRep, hx]
-  | mem fid t => left; simp [unbindFun, reps_trkRemove, reps_setRep, hx]
-  | sref fid v =>
-    simp only [unbindFun, reps_unsetParentIf, repOf_setRep, reps_setRep, hx, if_false]
-    by_cases hv : repOf s v = some x
-    · cases hX : s.reps x with
-      | none => left; simp [hv, hX]
-      | some X => right; exact ⟨v, X, rfl, hv, rfl, by simp [hv, hX]⟩
-    · left; simp [hv]
-  | own fid v t => cases t <;> (left; simp [unbindFun, reps_trkRemove, reps_setRep, hx])
-  | nest fid v d =>
-    simp only [unbindFun, reps_unsetParentIf, repOf_setRep, reps_setRep, hx, if_false]
-    by_cases hv : repOf s v = some x
-    · cases hX : s.reps x with
-      | none => left; simp [hv, hX]
-      | some X => right; exact ⟨v, X, rfl, hv, rfl, by simp [hv, hX]⟩
-    · left; simp [hv]
-
-/-- a representation that is not stored in any variable is not touched by `destroyRep` -/
-theorem destroyRep_orphan : ∀ (k r : Nat) (s : State) (x : Nat), (∀ w, repOf s w ≠ some x) → x ≠ r →
-    (destroyRep k r s).reps x = s.reps x := by
-  intro k
-  induction k with
-  | zero => intro r s x _ _; rfl
-  | succ k ih =>
-    intro r s x ho hx
-    rw [destroyRep_succ]
-    cases hr : s.reps r with
-    | none => rfl
-    | some R =>
-      simp only []
-      cases hf : R.fn with
-      | none => simp [reps_setRep, hx]
-      | some f =>
-        simp only []
-        have h2 : (dropFn r R f s).reps x = s.reps x := by
-          rcases reps_dropFn_other r R f s x hx with h | ⟨v, X, -, hv, -, -⟩
-          · exact h
-          · exact absurd hv (ho v)
-        have ho2 : ∀ w, repOf (dropFn r R f s) w ≠ some x := by
-          intro w; simp only [repOf, slots_dropFn]; exact ho w
-        cases f.owns with
-        | none => exact h2
-        | some h =>
-          simp only []
-          split
-          · exact h2
-          · split
-            · exact h2
-            · rename_i V hV
-              split
-              · rw [reps_setSlot]; exact h2
-              · rename_i r' hr'
-                have hne : x ≠ r' := by
-                  intro he; subst he
-                  exact ho2 h (by simp [repOf, hV, hr'])
-                rw [reps_killVar, if_neg hne, ih r' _ x ho2 hne]; exact h2
-
-/-- a variable owned by a functor that is stored in an unstored representation is not destroyed by `destroyRep` -/
-theorem destroyRep_ownedByOrphan : ∀ (k r : Nat) (s : State) (n v : Nat) (N : Rep) (g : Fun),
-    Inv s → (∀ w, repOf s w ≠ some n) → n ≠ r → s.reps n = some N → N.fn = some g → g.owns = some v →
-    (destroyRep k r s).slots v = s.slots v := by
-  intro k
-  induction k with
-  | zero => intro r s n v N g _ _ _ _ _ _; rfl
-  | succ k ih =>
-    intro r s n v N g hI ho hx hN hNf hgo
-    rw [destroyRep_succ]
-    cases hr : s.reps r with
-    | none => rfl
-    | some R =>
-      simp only []
-      cases hf : R.fn with
-      | none => rfl
-      | some f =>
-        simp only []
-        have hI2 : Inv (dropFn r R f s) := inv_dropFn hI hr hf
-        have hsl : (dropFn r R f s).slots = s.slots := slots_dropFn _ _ _ _
-        have h2 : (dropFn r R f s).reps n = s.reps n := by
-          rcases reps_dropFn_other r R f s n hx with h | ⟨w, X, -, hw, -, -⟩
-          · exact h
-          · exact absurd hw (ho w)
-        have ho2 : ∀ w, repOf (dropFn r R f s) w ≠ some n := by
-          intro w; simp only [repOf, hsl]; exact ho w
-        cases f.owns with
-        | none => simp only [hsl]
-        | some h =>
-          simp only []
-          split
-          · simp only [hsl]
-          · rename_i hob
-            have hhv : h ≠ v := by
-              intro he; subst he
-              apply hob
-              exact (ownedBy_iff hI2.repBound h).mpr ⟨n, N, g, by rw [h2]; exact hN, hNf, hgo⟩
-            split
-            · simp only [hsl]
-            · rename_i V hV
-              split
-              · rw [slots_setSlot, if_neg (Ne.symm hhv), hsl]
-              · rename_i r' hr'
-                have hne : n ≠ r' := by
-                  intro he; subst he
-                  exact ho2 h (by simp [repOf, hV, hr'])
-                rw [slots_killVar, if_neg (Ne.symm hhv),
-                  ih r' _ n v N g hI2 ho2 hne (by rw [h2]; exact hN) hNf hgo, hsl]
-
 /-! ### `delS` -/
 
 theorem apply_delS (v : Nat) (s : State) : apply (.delS v) s =
@@ -234,6 +89,7 @@ structure FunOk (s : State) (f : Fun) : Prop where
   ref : ∀ v, f.ref = some v → v < anonBase ∧ (∃ V, s.slots v = some V) ∧ ¬ Owned s v
   own : ∀ v, f.owns = some v → v < anonBase ∧ (∃ V, s.slots v = some V) ∧ ¬ Pinned s v
   flat : ∀ fid v d, f ≠ .nest fid v d
+  conn : ∀ c, f.ownsC = some c → ∃ p, s.conns c = some p
 
 /-- `new typed_slot_rep(functor)` / `clone()`: allocate `s.nextRep`, bind -/
 def allocBind (c : Bool) (f : Fun) (s : State) : State :=
@@ -285,6 +141,7 @@ theorem bindFun_noRef (r : Nat) (f : Fun) (s : State) (hf : f.ref = none) :
   | sref fid v => simp [Fun.ref] at hf
   | own fid v t => cases t <;> rfl
   | nest fid v d => simp [Fun.ref] at hf
+  | ownc fid c => rfl
 
 theorem orphan_modRep {s : State} (q : Nat) (g : Rep → Rep) (r : Nat) :
     Orphan (s.modRep q g) r ↔ Orphan s r := by
@@ -323,7 +180,7 @@ theorem refOk_transfer {s s' : State} (h : Inv s)
 theorem inv_setPar {s : State} (h : Inv s) {n q v : Nat} {N : Rep} {f : Fun} (hn : s.reps n = some N)
     (hf : N.fn = some f) (hfr : f.ref = some v) (hq : repOf s v = some q) : Inv (s.modRep q (setPar n)) := by
   refine { repAlive := ?_, repUniq := ?_, connReg := ?cr, cbsConn := ?cc, regUniq := ?_, cbsNodup := ?_,
-           parentOk := ?_, trkReg := ?_, trkEnt := ?_, trkNodup := ?_, refOk := ?ro, ownOk := ?_, nestOk := ?_, anonBound := ?_, repBound := ?_ }
+           parentOk := ?_, trkReg := ?_, trkEnt := ?_, trkNodup := ?_, refOk := ?ro, ownOk := ?_, nestOk := ?_, anonBound := ?_, repBound := ?_, regHeld := ?_, ownCOk := ?_ }
   case ro =>
     intro r R fid v' hR hfn
     obtain ⟨W, hW, hWf⟩ := modRep_fn_inv (setPar_fn n) hR
@@ -354,11 +211,12 @@ theorem inv_setPar {s : State} (h : Inv s) {n q v : Nat} {N : Rep} {f : Fun} (hn
     exact ⟨w, by rw [conns_modRep]; exact hw, by rw [repOf_modRep, orphan_modRep]; exact hor⟩
   all_goals inv_clause h with [setPar_fn, setPar_cbs, setPar_parent]
 
+set_option maxHeartbeats 1000000 in
 theorem inv_allocBind {s : State} (h : Inv s) (hidle : Idle s) (c : Bool) {f : Fun} (hf : FunOk s f) :
     Inv (allocBind c f s) := by
   have hfresh := fresh_entries h hidle
   have horph := orphan_next h
-  have hf1 := hf.trk; have hf2 := hf.ref; have hf3 := hf.own; have hf4 := hf.flat
+  have hf1 := hf.trk; have hf2 := hf.ref; have hf3 := hf.own; have hf4 := hf.flat; have hf5 := hf.conn
   unfold allocBind Idle Pinned at *
   cases hfr : f.ref with
   | none =>
@@ -368,7 +226,7 @@ theorem inv_allocBind {s : State} (h : Inv s) (hidle : Idle s) (c : Bool) {f : F
     | some t =>
       simp only []
       refine { repAlive := ?_, repUniq := ?_, connReg := ?_, cbsConn := ?_, regUniq := ?_, cbsNodup := ?_,
-               parentOk := ?_, trkReg := ?_, trkEnt := ?te, trkNodup := ?_, refOk := ?_, ownOk := ?_, nestOk := ?_, anonBound := ?_, repBound := ?_ }
+               parentOk := ?_, trkReg := ?_, trkEnt := ?te, trkNodup := ?_, refOk := ?_, ownOk := ?_, nestOk := ?_, anonBound := ?_, repBound := ?_, regHeld := ?_, ownCOk := ?_ }
       case te =>
         intro t' T r ht hm
         simp only [slotg_simp] at ht ⊢
